@@ -100,6 +100,23 @@ def rule_D(ctx):
 
         __radd__ = __add__
 
+    class Pos(Tag):
+        """the position of observation k of a track: a tag, with coordinates for code that reads them - the same easting for every
+        observation of a track (a vehicle heading due north), another northing for each"""
+        isa = ('ENUCoords',)
+
+        def getX(self):
+            return 100.0
+
+        def getY(self):
+            return 10.0 * self.tag[2]
+
+        def getZ(self):
+            return 0.0
+
+        def copy(self):
+            return Pos(*self.tag)
+
     class ObsS(orders.PyStub):
         isa = ('Obs',)
 
@@ -116,7 +133,7 @@ def rule_D(ctx):
 
         def __init__(self, name, n):
             self.name = name
-            self.obs = [ObsS(Tag('position', name, k)) for k in range(n)]
+            self.obs = [ObsS(Pos('position', name, k)) for k in range(n)]
             self._Track__POINTS = self.obs
             self.created = {}
 
